@@ -175,7 +175,7 @@ func init() {
 	register("C12", func(r *Result, rng *rand.Rand, tier string) {
 		n := 4000
 		if tier == "thorough" {
-			n = 100000
+			n = 70000
 		} else if tier == "search" {
 			n = 3000
 		}
